@@ -15,6 +15,8 @@ DIMS = {
     # the configured bitmap_resolution: equal to the PNG's height (what the pipeline's resvg -h gives), or not
     # (PNGs handed to write_font / _generate_color_font directly): placement is by the image's own height
     "res_cfg": ["height", 128, 100],
+    # every glyph's PNG has the same width, or each its own (metrics are per glyph, not per strike)
+    "widths": ["same", "varying"],
 }
 K = {"quick": 3, "thorough": 8}  # 8 = the full product
 INT8 = range(-128, 128)
@@ -47,16 +49,18 @@ def execute(dev):
     width = {"em": em, "2em": 2 * em}.get(a["width"], a["width"])
     fmt = a["fmt"]
     seqs = sequences(a["order"], a["nglyphs"])
-    images = [pngs.png(w, h, i) for i in range(len(seqs))]
+    ws = [w] * len(seqs) if a["widths"] == "same" else [max(1, round(w * f)) for f in (0.7, 1.0, 1.35, 0.85)[: len(seqs)]]
+    images = [pngs.png(ws[i], h, i) for i in range(len(seqs))]
     over = {"upem": upem, "ascender": asc, "descender": desc, "width": width, "color_format": fmt,
             "bitmap_resolution": h if a["res_cfg"] == "height" else a["res_cfg"], "output_file": "x.ttf"}
     # ---- reference model: what must be rejected -------------------------------------
     s = h / em  # exact pixels per font unit
-    adv_units = max(width, round(em * w / h))
-    adv_px = adv_units * s
-    must_raise = fmt == "cbdt" and max(w, h) > 255
+    advs_units = [max(width, round(em * wi / h)) for wi in ws]
+    adv_px = max(advs_units) * s
+    must_raise = fmt == "cbdt" and max(max(ws), h) > 255
     exp_top = asc * s  # pixels above the baseline of the top edge
-    exp_left = (adv_px - w) / 2
+    exp_left = max((au * s - wi) / 2 for au, wi in zip(advs_units, ws))
+    w = max(ws)
     # CBDT small metrics and CBLC line metrics are 8-bit fields; within one pixel of a limit
     # either outcome is accepted (rounding, and the one-pixel nudge of the offsets)
     may_raise = must_raise or (fmt == "cbdt" and (
@@ -81,9 +85,11 @@ def execute(dev):
         return [bad("C14.unrepresentable-rejected", f"{w}x{h} bitmap accepted into CBDT")]
     out = []
     exp_ppem = round(upem * h / em)
-    square = w == h
     proportional = width == 0
     for i, sq in enumerate(seqs):
+        w = ws[i]
+        square = w == h
+        adv_units = advs_units[i]
         names = [".notdef"] if sq == () else shaper.shape(font, sq)
         if len(names) != 1:
             out.append(bad("C14.reachable", f"{sq} -> {names}"))
